@@ -352,6 +352,16 @@ def build(spec: dict):
             kw["rtf_column_header"] = [[make_header(h) for h in sec] for sec in hs]
         else:
             kw["rtf_column_header"] = [make_header(h) for h in hs]
+    if "_prior_df" in spec and "df" in kw and not isinstance(kw["df"], list):
+        # history: the same component objects were first used by an earlier document
+        prior = dict(kw)
+        prior["df"] = make_df(spec["_prior_df"])
+        try:
+            earlier = rtf.RTFDocument(**prior)
+            if spec.get("_prior_encode"):
+                earlier.rtf_encode()
+        except Exception:  # noqa: BLE001
+            pass
     return rtf.RTFDocument(**kw)
 
 
